@@ -113,6 +113,12 @@ CHECKS = {
         text="Sources of run-to-run variation are enumerated explicitly (PYTHONHASHSEED, process, cwd, solver schedule and budget, earlier compilations in the same process); every run's canonical circuit (configured entities + connector partition, poles contracted) must be identical.",
         design_ref="DESIGN.md 3 (C19), 2.5",
     ),
+    "C12": dict(
+        category="exploration",
+        technique="runtime monitoring: differential execution of each component alone vs inside the interleaved joint program, plus a network-level ownership monitor on the executed joint blueprint (no reader of one program sees an emitter of the other)",
+        text="Pairs/triples of generated programs with disjoint names but overlapping signal types are compiled alone and interleaved (three orders) under relay-heavy schedules and pole options; every component's outputs and entity conditions in the joint blueprint must equal those of the component alone for every valuation, and the model checks on the joint blueprint that no entity owned by one program reads a network carrying a non-zero signal emitted by the other.",
+        design_ref="DESIGN.md 3 (C12)",
+    ),
 }
 
 PENDING = {}
